@@ -603,6 +603,10 @@ Definition verdict_cdo2 (p : N) (a : list val) (out : val) : N :=
 (* ---------- sequences of calls on one client object: entry "cdoseq" ----------
    args [kind; port; flusher; hooks; [op...]]   port: the serial client was given a port
    op   [0; dial_fails] Connect | [1] Close | [2; request; script; want] Do
+        dial_fails: 0 the dial succeeds, 1 it returns (nil, err), 2 it returns a typed nil pointer
+        (a non-nil net.Conn holding a nil pointer, as `return tls.Dial(...)` does) with err; the model
+        does not distinguish 1 and 2: Connect returns the error before it touches c.conn
+   a call that panics is [2]
    (optional sixth argument: ctor, as for "cdo"; not 4)
    outcome [r...], one per op:  [0] returned nil, [1] returned an error (Connect),
    [result; trace; late] for Do, [98] the call did not return (watchdog).
